@@ -24,12 +24,16 @@ def toByteArray (b : Bytes) : ByteArray := ByteArray.mk (b.map (fun n => UInt8.o
 
 /-- hex of UTF-8 → characters (none if not hex or not valid UTF-8) -/
 def unhexText (s : String) : Option (List Char) :=
+  if s = "-" then some [] else
   match unhex s with
   | none => none
   | some b => (String.fromUTF8? (toByteArray b)).map (·.toList)
 
 def hexText (cs : List Char) : String :=
   hex ((String.ofList cs).toUTF8.toList.map (·.toNat))
+
+/-- the whole output of a writer: never the empty token -/
+def hexOut (cs : List Char) : String := if cs.isEmpty then "-" else hexText cs
 
 def parseLB (s : String) : Option Csv.LB :=
   if s = "LF" then some .lf else if s = "CRLF" then some .crlf else if s = "CR" then some .cr else none
@@ -84,7 +88,7 @@ def encCsv (args : List String) : String :=
     | some d, some lb, some ea, some wh, some ql, some (h, rows) =>
       let o : Csv.Opts := { delim := d, lb := lb, encloseAll := ea, withoutHeader := wh, quoteLB := ql }
       match Csv.encodeCsv o ⟨h, rows⟩ with
-      | .ok cs => hexText cs
+      | .ok cs => hexOut cs
       | .error _ => "E"
     | _, _, _, _, _, _ => "bad-op"
   | _ => "bad-op"
@@ -107,6 +111,7 @@ def c02 (cmd : String) (args : List String) : String :=
   match cmd, args with
   | "enc", "csv" :: rest => C02.encCsv rest
   | "dec", "csv" :: rest => C02.decCsv rest
+  | "nop", [] => "ok"     -- a case whose law is checked on the implementation alone
   | _, _ => "bad-op"
 
 end Csvq.Drive
